@@ -1,12 +1,20 @@
 package main
 
 import (
+	"bufio"
 	"fmt"
 	"os"
+	"os/exec"
+	"path/filepath"
+	"regexp"
 	"strconv"
+	"strings"
 
 	"github.com/els0r/goProbe/v4/pkg/goDB/encoder/encoders"
 )
+
+// C04 — a crash during a write-out. History of write-outs; one of them runs in a child process
+// under strace and is killed (SIGKILL at system-call entry) before its n-th file operation.
 
 // child: one real write-out between two marker system calls (stat of a reserved path)
 func init() {
@@ -24,4 +32,264 @@ func init() {
 		fmt.Println("ok")
 		return 0
 	}
+}
+
+type WriteOut struct {
+	Iface string
+	TS    int64
+	Drops uint64
+	Flows []Flow
+}
+
+func (w WriteOut) String() string {
+	return fmt.Sprintf("%s|%d|%d|%s", w.Iface, w.TS, w.Drops, flowsField(w.Flows))
+}
+
+func parseWriteOut(s string) WriteOut {
+	p := strings.Split(s, "|")
+	ts, _ := strconv.ParseInt(p[1], 10, 64)
+	dr, _ := strconv.ParseUint(p[2], 10, 64)
+	return WriteOut{Iface: p[0], TS: ts, Drops: dr, Flows: parseFlows(p[3])}
+}
+
+// the file operations that count as steps of the write-out protocol (and as injection points)
+const fsOpSyscalls = "mkdirat,openat,write,renameat,fchmodat,unlinkat"
+
+var straceLine = regexp.MustCompile(`^\d+\s+(\w+)\((.*)\)\s+=\s+(-?\d+)(?:\s+(\w+))?`)
+
+// normaliseTrace maps the strace log between the two markers to the model's op alphabet.
+// Returns the ops and the number of counted system calls that precede the begin marker.
+func normaliseTrace(path, db string) (ops []string, before int, err error) {
+	f, err := os.Open(path)
+	if err != nil {
+		return nil, 0, err
+	}
+	defer f.Close()
+	fds := map[string]string{}
+	in := false
+	sc := bufio.NewScanner(f)
+	sc.Buffer(make([]byte, 1<<20), 1<<24)
+	counted := map[string]bool{}
+	for _, s := range strings.Split(fsOpSyscalls, ",") {
+		counted[s] = true
+	}
+	for sc.Scan() {
+		line := sc.Text()
+		if strings.Contains(line, "/verif-marker-begin") {
+			in = true
+			continue
+		}
+		if strings.Contains(line, "/verif-marker-end") {
+			break
+		}
+		m := straceLine.FindStringSubmatch(line)
+		if m == nil {
+			continue
+		}
+		name, args, ret, errno := m[1], m[2], m[3], m[4]
+		if !in {
+			if counted[name] {
+				before++
+			}
+			continue
+		}
+		if !counted[name] {
+			continue
+		}
+		rel := func(p string) string {
+			p = strings.Trim(p, `"`)
+			r, e := filepath.Rel(db, p)
+			if e != nil {
+				return p
+			}
+			return r
+		}
+		quoted := regexp.MustCompile(`"([^"]*)"`).FindAllStringSubmatch(args, -1)
+		res := "ok"
+		if strings.HasPrefix(ret, "-") {
+			res = errno
+		}
+		base := func(p string) string { return filepath.Base(p) }
+		switch name {
+		case "mkdirat":
+			ops = append(ops, "mkdir:"+strings.Join(strings.Split(rel(quoted[0][1]), "/")[1:], "/"))
+		case "openat":
+			p := rel(quoted[0][1])
+			b := base(p)
+			switch {
+			case strings.Contains(args, "O_DIRECTORY"):
+				ops = append(ops, "readdir:"+res)
+			case b == ".blockmeta":
+				ops = append(ops, "openmeta:"+res)
+			case strings.HasPrefix(b, ".tmp-metadata-"):
+				ops = append(ops, "opentmp:"+res)
+				fds[ret] = "tmp"
+			case strings.HasSuffix(b, ".gpf"):
+				ops = append(ops, "opencol:"+strings.TrimSuffix(b, ".gpf")+":"+res)
+				fds[ret] = "col:" + strings.TrimSuffix(b, ".gpf")
+			default:
+				ops = append(ops, "open:"+p+":"+res)
+			}
+		case "write":
+			fd := strings.SplitN(args, ",", 2)[0]
+			what := fds[fd]
+			if what == "" {
+				continue // stdout etc.: not a database operation, not counted by the model (see `extra`)
+			}
+			ops = append(ops, "write:"+what+":"+res)
+		case "fchmodat":
+			ops = append(ops, "chmod:"+res)
+		case "renameat":
+			to := base(rel(quoted[1][1]))
+			if to == ".blockmeta" {
+				ops = append(ops, "renamemeta:"+res)
+			} else {
+				ops = append(ops, "renamedir:"+res)
+			}
+		case "unlinkat":
+			ops = append(ops, "unlink:"+res)
+		}
+	}
+	return ops, before, nil
+}
+
+func copyTree(src, dst string) error {
+	return exec.Command("cp", "-a", src, dst).Run()
+}
+
+// runChildWriteOut runs write-out w in a child under strace; killAt < 0: no injection.
+// Returns the normalised op list (only meaningful without injection) and the child's status.
+func runChildWriteOut(db string, w WriteOut, killAt int, inject string, work string) (ops []string, before int, status string) {
+	trace := filepath.Join(work, fmt.Sprintf("trace-%d.txt", killAt))
+	_ = os.Remove(trace)
+	args := []string{"-f", "-o", trace, "-e", "trace=%file,%desc"}
+	if killAt >= 0 {
+		args = append(args, "-e", fmt.Sprintf("inject=%s:%s:when=%d", fsOpSyscalls, inject, killAt))
+	}
+	args = append(args, os.Args[0], "__child", "writeout", db, w.Iface, strconv.FormatInt(w.TS, 10), strconv.FormatUint(w.Drops, 10), flowsField(w.Flows))
+	cmd := exec.Command("strace", args...)
+	cmd.Env = append(os.Environ(), "GOMAXPROCS=1", "TZ=UTC")
+	out, err := cmd.Output()
+	status = strings.TrimSpace(string(out))
+	if err != nil && status == "" {
+		status = "killed"
+	}
+	ops, before, _ = normaliseTrace(trace, db)
+	return
+}
+
+func c04Range(ws []WriteOut) (int64, int64) {
+	lo, hi := ws[0].TS, ws[0].TS
+	for _, w := range ws {
+		if w.TS < lo {
+			lo = w.TS
+		}
+		if w.TS > hi {
+			hi = w.TS
+		}
+	}
+	return lo - 300, hi + 300
+}
+
+func c04Run(f []string) string {
+	var ws []WriteOut
+	for _, s := range splitSemi(f[0]) {
+		ws = append(ws, parseWriteOut(s))
+	}
+	crashK, crashN := -1, -1
+	if f[1] != "-" {
+		p := strings.Split(f[1], ".")
+		crashK, _ = strconv.Atoi(p[0])
+		crashN, _ = strconv.Atoi(p[1])
+	}
+	work, err := os.MkdirTemp("", "verif-c04-")
+	if err != nil {
+		panic(err)
+	}
+	if os.Getenv("VERIF_KEEP") == "" {
+		defer os.RemoveAll(work)
+	} else {
+		fmt.Fprintln(os.Stderr, "work dir kept:", work)
+	}
+	db := filepath.Join(work, "db")
+	_ = os.MkdirAll(db, 0o755)
+	first, last := c04Range(ws)
+	var out []string
+	for k, w := range ws {
+		if k != crashK {
+			if err := writeOut(db, w.Iface, w.TS, w.Drops, w.Flows, encoders.EncoderTypeLZ4); err != nil {
+				out = append(out, fmt.Sprintf("w%d=err:%s", k, errClass(err)))
+			}
+			continue
+		}
+		// dry run on a copy: the full op list of this write-out in the current state
+		dry := filepath.Join(work, "dry")
+		_ = copyTree(db, dry)
+		ops, before, st := runChildWriteOut(dry, w, -1, "", work)
+		_ = os.RemoveAll(dry)
+		out = append(out, "ops="+listField(ops), "dry="+st)
+		// real run, killed at the entry of the crashN-th counted system call of the write-out
+		if crashN < len(ops) {
+			_, _, st = runChildWriteOut(db, w, before+crashN+1, "signal=SIGKILL", work)
+			out = append(out, "crashed="+st)
+		} else {
+			_, _, st = runChildWriteOut(db, w, -1, "", work)
+			out = append(out, "crashed="+st)
+		}
+		out = append(out, "q1="+queryRows(db, "any", first, last, ""), "l1="+listSummary(db, first, last))
+	}
+	out = append(out, "q2="+queryRows(db, "any", first, last, ""), "l2="+listSummary(db, first, last))
+	return strings.Join(out, " ")
+}
+
+func c04Gen(r *Rand, tier string) []Case {
+	nh := 2
+	if tier == "thorough" {
+		nh = 30
+	}
+	var cs []Case
+	day := int64(1699920000)
+	for h := 0; h < nh; h++ {
+		nw := 2 + r.Intn(3)
+		ifaces := []string{"eth0", "eth1"}
+		slot := map[string]int64{}
+		var ws []WriteOut
+		for i := 0; i < nw; i++ {
+			ifc := ifaces[r.Intn(1+r.Intn(2))]
+			slot[ifc] += int64(1 + r.Intn(2))
+			ts := day + slot[ifc]*300
+			if r.Chance(1, 5) {
+				slot[ifc] += 288 // next day
+				ts = day + slot[ifc]*300
+			}
+			nf := 1 + r.Intn(3)
+			if r.Chance(1, 8) {
+				nf = 0
+			}
+			ws = append(ws, WriteOut{Iface: ifc, TS: ts, Drops: uint64(r.Intn(5)), Flows: genFlows(r, nf)})
+		}
+		var hs []string
+		for _, w := range ws {
+			hs = append(hs, w.String())
+		}
+		hist := semiField(hs)
+		// every crash point of every write-out (the model says how many ops each has; 40 is an upper bound,
+		// indices beyond the op list mean "not killed")
+		for k := range ws {
+			for n := 0; n <= 34; n++ {
+				cs = append(cs, Case{Line: fmt.Sprintf("C04 %s %d.%d", hist, k, n), Class: fmt.Sprintf("crash:w%d/%d", k, nw), NonTrivial: true})
+			}
+		}
+		cs = append(cs, Case{Line: fmt.Sprintf("C04 %s -", hist), Class: "no-crash", NonTrivial: false})
+	}
+	return cs
+}
+
+func init() {
+	register(&Prop{
+		ID:   "C04",
+		Rule: "seeded histories of 2-4 real write-outs (DBWriter.Write; 1-2 interfaces, day roll-over 1 in 5, 0-3 flows, IPv4/IPv6) and, for EVERY write-out k and EVERY file-operation index n of it (mkdirat/openat/write/renameat/fchmodat/unlinkat, enumerated from a strace dry run), a run in which the writing child process is killed by SIGKILL at the entry of its n-th operation (strace fault injection); afterwards the real query engine and ReadMetadata run on the damaged database, the remaining write-outs are applied and both run again. The normalised system-call trace must equal the model's op list. Non-trivial: every crash case. Distinct = distinct (history, k, n).",
+		Gen:  c04Gen,
+		Run:  c04Run,
+	})
 }
